@@ -7,7 +7,7 @@ Model: `RV.Finder` (pkg/util/controller_finder.go and the helpers it calls).  De
 kind, any ReplicaSet / canary-Deployment sets, any fault placement), every strategy, namespace and reference.
 
 Reading guide
-* `finder_total_partial` / `finder_total_full_FALSE`   — clause 1 (the finder does not panic; one guarded finding)
+* `finder_total`   — clause 1 (the finder does not panic)
 * `rollback_detected`, `no_false_rollback`, `rollback_iff_*`, `rollback_implies_in_progress` — clause 2
 * `inconsistent_is_opaque`, `skew_is_opaque`, `consistent_reads_status` — clause 3
 * `dispatch_by_style_and_kind`, `owners_*`, `no_owner_nothing`, `canary_style_finder_wins`, `advanced_finder_*` — clause 4
@@ -419,15 +419,10 @@ theorem verifyGroupKind_ignores_version (ref ref' : Ref) (k g : String)
 
 /-! ## 1. totality (C09-style, attached to C10) -/
 
-/-- **`finder_total` — partial.**  Full-strength statement (FALSE on the unchanged code, see `finder_total_full_FALSE`):
-
-      ∀ c s ns ref, admissible c → strategyOK s → getWorkloadForRef c s ns ref ≠ .panic
-
-    Proved: the same outside the guard `replicaSetRef` (the reference names an existing apps/v1 ReplicaSet under a
-    style that consults the StatefulSet-like finder). -/
-theorem finder_total_partial (c : Cluster) (s : Strategy) (ns : String) (ref : Ref)
-    (hadm : admissible c = true) (hs : strategyOK s = true) (hg : replicaSetRef c s ns ref = false) :
-    getWorkloadForRef c s ns ref ≠ .panic := by
+/-- **`finder_total`** — no cluster of admissible objects (replicas defaulted, revision fields strings) and no reference
+    makes `GetWorkloadForRef` panic, for a Rollout whose strategy the validating webhook admits -/
+theorem finder_total (c : Cluster) (s : Strategy) (ns : String) (ref : Ref)
+    (hadm : admissible c = true) (hs : strategyOK s = true) : getWorkloadForRef c s ns ref ≠ .panic := by
   intro h
   cases hst : getRollingStyle s with
   | none =>
@@ -439,29 +434,23 @@ theorem finder_total_partial (c : Cluster) (s : Strategy) (ns : String) (ref : R
     rw [dispatch c s ns ref st hst] at h
     have hm := firstHit_mem _ _ h (by simp)
     obtain ⟨f, hf, hrun⟩ := List.mem_map.1 hm
-    have hfin : f ∈ finders st := (List.mem_filter.1 hf).1
-    exact run_no_panic c s ns ref f hadm (fun e => style_blueGreen s st hst (e ▸ hfin)) hg hrun
+    exact run_no_panic c ns ref f hadm hrun
 
-/-- the witness of the finding: a Rollout (partition style) whose `workloadRef` is `apps/v1 ReplicaSet wl`, and a
-    ReplicaSet `wl` in its namespace — every object admissible, the reference accepted by `IsSupportedWorkload` (hence
-    by the validating webhook) — makes `GetWorkloadForRef` panic -/
+/-- the cluster of the former finding (a Rollout referring to an existing apps/v1 ReplicaSet): now `nil, nil` -/
 def witnessCluster : Cluster :=
   { cloneSets := [], daemonSets := [], deployments := [], nativeSts := [], kruiseSts := [], unstructured := [],
     replicaSets := [{ m := { ns := "ns1", name := "wl", uid := "u1", generation := 1, inProgress := false, deleting := false, created := 0 },
                       app := some "demo", hashLabel := "h1", owner := none, replicas := some 1, template := 1, revision := some 1 }],
     failGet := [], failListRS := none, failListDeploy := false, filter := true }
 
-theorem finder_total_full_FALSE :
-    admissible witnessCluster = true ∧ strategyOK ⟨false, some false⟩ = true ∧
-    replicaSetRef witnessCluster ⟨false, some false⟩ "ns1" ⟨"apps/v1", "ReplicaSet", "wl"⟩ = true ∧
-    getWorkloadForRef witnessCluster ⟨false, some false⟩ "ns1" ⟨"apps/v1", "ReplicaSet", "wl"⟩ = .panic := by decide
+example : getWorkloadForRef witnessCluster ⟨false, some false⟩ "ns1" ⟨"apps/v1", "ReplicaSet", "wl"⟩ = .nothing := by decide
 
 /-! ## the run-time oracles hold of the model's own output -/
 
 theorem finder_no_panic_holds (c : Cluster) (s : Strategy) (ns : String) (ref : Ref)
-    (hadm : admissible c = true) (hs : strategyOK s = true) (hg : replicaSetRef c s ns ref = false) :
+    (hadm : admissible c = true) (hs : strategyOK s = true) :
     noPanic (getWorkloadForRef c s ns ref) = true := by
-  have := finder_total_partial c s ns ref hadm hs hg
+  have := finder_total c s ns ref hadm hs
   unfold noPanic
   simpa using this
 
@@ -646,8 +635,7 @@ example :
       ⟨false, some false⟩ "ns1" ⟨"apps.kruise.io/v1alpha1", "CloneSet", "wl"⟩ = .wl W.opaque := by decide
 
 /-- the hypotheses of `finder_total_partial` are satisfiable on a non-trivial cluster -/
-example : admissible depCluster = true ∧ strategyOK ⟨false, some true⟩ = true ∧
-    replicaSetRef depCluster ⟨false, some true⟩ "ns1" ⟨"apps/v1", "Deployment", "wl"⟩ = false := by decide
+example : admissible depCluster = true ∧ strategyOK ⟨false, some true⟩ = true := by decide
 
 /-- `stable_rs_choice` / `latest_canary_choice` speak about real situations -/
 example : (getDeploymentStableRs depCluster depCluster.deployments.head! 0).toOption.map (·.map (·.m.name)) = some (some "rs-old") := by decide
